@@ -195,7 +195,16 @@ func TestVerifC04(t *testing.T) {
 				hdJoinOp(2, 0, 0),                     // C leaves: leave[C] on the room subject
 				{K: "deliversubj", Sk: "room"},        // B sees leave[C] first
 				{K: "drain"}}
-			return []*hdCase{{Id: 0, Mode: 2, Async: true, Ops: ghost, Finding: "C04/observers/cross-subject-reorder"}}
+			// second witness (found by the proof of the quiescent case): publication order alone is not enough either.
+			// A joins room 1 and switches to room 2 before the "session joined" notice of its first join is processed;
+			// that notice then sends A the members of room 1 (it does not name the room), and A's view of room 2 has a ghost.
+			stale := []hdOp{{K: "connect", C: 1}, {K: "connect", C: 2},
+				{K: "hello", C: 1, B: 0, U: 1}, {K: "hello", C: 2, B: 0, U: 2},
+				hdJoinOp(2, 1, 2), {K: "drain"},
+				hdJoinOp(1, 1, 1), hdJoinOp(1, 2, 1),
+				{K: "drain"}}
+			return []*hdCase{{Id: 0, Mode: 2, Async: true, Ops: ghost, Finding: "C04/observers/cross-subject-reorder"},
+				{Id: 1, Mode: 2, Async: true, Ops: stale, Finding: "C04/observers/stale-joined-notice"}}
 		}})
 }
 
